@@ -347,7 +347,36 @@ def mask_width(P, R):
     R.floor('C07.ARITH.1', 1, 'producers of service slot indices')
 
 
+def references_returned(P, R, rule='C07.WIRE.1'):
+    """A module that counts, per service, the clients waiting for it gives the references back when a client goes away by
+    any road - the reply arriving is only one of them.  A client that is withdrawn (D), registered (T) or decided while a
+    reply is outstanding would otherwise keep the service's slot alive for the life of the process, and what slots are
+    alive decides what the next client's class lookup and queries see.  Rule: a unit that counts such references
+    (`refs++` on a service) installs both of the core's retire hooks (iauth.h: modules keeping per-request state must),
+    and a release of the count is reachable from each."""
+    slots = P.slots()
+    n = 0
+    for unit in sorted({f.unit for f in P.fns.values() if f.unit.startswith('modules/')}):
+        takes = [s for f in P.unit_fns(unit) for s in f.stores() if s.ev['k'] == 'store' and holds.outer_field(s.ev['lhs']) == 'refs' and s.ev.get('op') in ('++', '+=')]
+        if not takes:
+            continue
+        for slot in ('iauth_module::disconnect', 'iauth_module::registered'):
+            impl = [P.fns[k] for k in slots.get(slot, ()) if P.fns[k].unit == unit]
+            gives = []
+            for g in impl:
+                for k, h in P.closure([g], may=False).items():
+                    if h.unit == unit and any(t.ev['k'] == 'store' and holds.outer_field(t.ev['lhs']) == 'refs' and t.ev.get('op') in ('--', '-=') for t in h.stores()):
+                        gives.append(g.name)
+                        break
+            n += 1
+            R.ob(rule, bool(gives), takes[0], '%s counts references on services for its clients and gives them back when a client is %s (hook %s: %s)' % (
+                unit, 'withdrawn' if slot.endswith('disconnect') else 'registered or decided', slot.split('::')[1], ', '.join(gives) if gives else ('installed but releases nothing' if impl else 'not installed')),
+                key='refs-returned:%s' % slot.split('::')[1])
+    R.floor(rule, 2, 'retire hooks of reference-counting modules')
+
+
 def run(P, R, tier):
+    references_returned(P, R)
     storage_audit(P, R)
     slot_stability(P, R)
     index_consistency(P, R)
